@@ -126,6 +126,19 @@ Step(S, ev) ==
               \cup (IF live /\ ~had /\ ev.res # None /\ (~ev.new \/ Carrier(E, ev.res[1]) # {})
                     THEN {F("C15", "a fresh marker is not new / collides with a live entity's marker", <<ev.h, ev.res>>)} ELSE {})
               \cup cmp(E2, "C15", "mark")]
+    [] ev.op = "LazyMarked" ->   \* maintain applying a lazy builder's queue: component a, then marked(); then the deferred deletions
+         LET live == ev.h \in DOMAIN E
+             E1 == IF live /\ ev.a # None THEN [E EXCEPT ![ev.h] = <<@[1], ev.a, @[3], @[4]>>] ELSE E
+             had == live /\ E[ev.h][1] # None
+             E2 == IF live /\ ~had /\ ev.res # None THEN [E1 EXCEPT ![ev.h] = <<<<ev.res[1]>>, @[2], @[3], @[4]>>] ELSE E1
+             E3 == FnDel(E2, W.doomed)
+         IN [S |-> put(E3, [W EXCEPT !.doomed = {}]),
+             f |-> (IF live /\ ev.res = None THEN {F("C15", "a lazily built marked entity carries no marker after maintain", ev.h)} ELSE {})
+              \cup (IF had /\ ev.res # E[ev.h][1]
+                    THEN {F("C15", "lazy marking of an already marked entity did not keep its existing marker", <<ev.h, E[ev.h][1], ev.res>>)} ELSE {})
+              \cup (IF live /\ ~had /\ ev.res # None /\ Carrier(E, ev.res[1]) # {}
+                    THEN {F("C15", "a fresh marker collides with a live entity's marker", <<ev.h, ev.res>>)} ELSE {})
+              \cup cmp(E3, "C15", "maintain applying a lazy marked builder")]
     [] ev.op = "Delete" ->
          LET E2 == FnDel(E, {ev.h}) IN
          [S |-> put(E2, [W EXCEPT !.doomed = @ \ {ev.h}]), f |-> cmp(E2, "C15", "delete")]
